@@ -544,7 +544,7 @@ static Token *paste(Token *lhs, Token *rhs) {
 
   // Tokenize the resulting string.
   Token *tok = tokenize(new_file(lhs->file->name, lhs->file->file_no, buf));
-  if (tok->next->kind != TK_EOF)
+  if (tok->kind == TK_EOF || tok->next->kind != TK_EOF)
     error_tok(lhs, "pasting forms '%s', an invalid token", buf);
   return tok;
 }
@@ -615,6 +615,8 @@ static Token *subst(Token *tok, MacroArg *args) {
 
     if (arg && equal(tok->next, "##")) {
       Token *rhs = tok->next->next;
+      if (rhs->kind == TK_EOF)
+        error_tok(tok->next, "'##' cannot appear at end of macro expansion");
 
       if (arg->tok->kind == TK_EOF) {
         MacroArg *arg2 = find_arg(args, rhs);
@@ -997,6 +999,8 @@ static Token *preprocess2(Token *tok) {
     }
 
     if (equal(tok, "ifdef")) {
+      if (tok->next->kind != TK_IDENT)
+        error_tok(tok->next, "macro name must be an identifier");
       bool defined = find_macro(tok->next);
       push_cond_incl(tok, defined);
       tok = skip_line(tok->next->next);
@@ -1006,6 +1010,8 @@ static Token *preprocess2(Token *tok) {
     }
 
     if (equal(tok, "ifndef")) {
+      if (tok->next->kind != TK_IDENT)
+        error_tok(tok->next, "macro name must be an identifier");
       bool defined = find_macro(tok->next);
       push_cond_incl(tok, !defined);
       tok = skip_line(tok->next->next);
